@@ -289,7 +289,8 @@ theorem own2_policyFromCount (hΓ : Γ2 a g p) (hN : N g) (hvg : VG g) (hvp : VP
     refine ⟨hl hL, ?_, ?_⟩
     · simp [exec, Rg, polOf, hc] at h1 ⊢; exact h1
     · simp [exec, Lk, hc] at h2 ⊢; exact h2
-  · rename_i hf
+  all_goals
+    rename_i hf
     simp at hf
     obtain ⟨hL, c, hc, h1, h2⟩ := hΓ.cntGt hf
     refine ⟨hl hL, ?_⟩
@@ -454,6 +455,21 @@ theorem own2_mvNextTo (hΓ : Γ2 a g p) (hN : N g) (hvg : VG g) (hvp : VP g p) (
   have hl := hl_of (.mvNextTo) (g := g) (p := p) (pc := pc) (t := t)
   simp [tf2] at htf; subst htf
   auto2 hK
+  rename_i hf
+  simp [F2.clearNext] at hf
+  obtain ⟨hL, he⟩ := hΓ.fresh hf
+  refine ⟨hl hL, ?_⟩
+  intro h hh
+  show h ≤ (exec Cmd.mvNextTo g p).2.1.policy
+  rw [fr_policy _ g p rfl]
+  revert hh
+  simp only [exec]
+  (repeat' split) <;> simp <;> (try intro hh) <;>
+    first
+    | exact Nat.le_of_lt (he h hh)
+    | (rcases hh with hh | hh
+       · omega
+       · exact Nat.le_of_lt (he h hh))
 
 theorem own2_reset (hΓ : Γ2 a g p) (hN : N g) (hvg : VG g) (hvp : VP g p) (hq : quiet (exec (.gitResetHash) g p).1)
     (htf : tf2 (.gitResetHash) a (exec (.gitResetHash) g p).2.2 = some x) : Γ2 x (exec (.gitResetHash) g p).1 (upd (exec (.gitResetHash) g p).2.1 pc t) := by
